@@ -118,6 +118,25 @@ def run(ctx):
                     "mainLoop forwards ParseError tokens; tokenizer drains stream.errors", floor=5)
     r.rule("R16.3", "no except clause on the parse path can swallow ParseError around a call reaching parseError", floor=1)
 
+    # strict <=> non-strict across an encoding restart: the restart (except _ReparseException: reset(); mainLoop()) forgets
+    # the errors of the abandoned pass; strict mode must then not have raised for them (or the restart must keep them)
+    r.rule("R16.7", "errors of a pass that is abandoned for an encoding restart count the same in both modes", floor=1)
+    pf = repo.func("html5parser.py", "HTMLParser._parse")
+    handlers = [h for t in ast.walk(pf.node) if isinstance(t, ast.Try) for h in t.handlers if h.type is not None and "_ReparseException" in norm(h.type)]
+    rs = repo.func("html5parser.py", "HTMLParser.reset")
+    clears = any(isinstance(s, ast.Assign) and norm(s.targets[0]) == "self.errors" and norm(s.value) == "[]" for s in walk_no_nested(rs.node))
+    restarts_with_reset = any(any(isinstance(c, ast.Call) and norm(c.func) == "self.reset" for c in ast.walk(s)) for h in handlers for s in h.body)
+    pe = repo.func("html5parser.py", "HTMLParser.parseError")
+    raises = [n for n in ast.walk(pe.node) if isinstance(n, ast.Raise)]
+    defers = any(isinstance(t, ast.If) and ("tentative" in norm(t.test) or "charEncoding" in norm(t.test)) for t in ast.walk(pe.node))
+    if not handlers or not raises:
+        r.idiom("R16.7", False, "restart-forgets-what-strict-raised", pf.where, "the restart handler / the strict raise were not found")
+    else:
+        r.check("R16.7", not (restarts_with_reset and clears) or defers, "restart-forgets-what-strict-raised", pf.where,
+                "when a late <meta charset> restarts the parse, reset() discards the errors recorded so far, but in strict mode parseError "
+                "has already raised for the first of them: bytes that are erroneous only under the tentative encoding (ESC of an "
+                "ISO-2022-JP title read as windows-1252) make strict parsing raise although the non-strict parse records no error",
+                detail={"reset_clears_errors": clears, "restart_calls_reset": restarts_with_reset, "strict_raise_deferred_while_tentative": defers})
     # positions: the stream's line/column counters are re-initialised when the stream is restarted within a parse
     from .c05 import stream_reset
     stream_reset(ctx, "R16.6")
